@@ -33,4 +33,19 @@ theorem tcp_msg_order_src : tcp_msg_order = "Acquire,Submit,Release" := by decid
 theorem tcp_sema_size_src : tcp_sema_size = "s.conf.MaxPipelineCount" := by decide
 theorem tcp_sema_guard_src : tcp_sema_guard = "s.conf.MaxPipelineEnabled" := by decide
 
+/-- `limitListener.Close` works under the limiter's lock, closes the wrapped listener and broadcasts;
+its only early return is the `isClosed` guard (an error of the wrapped `Close` does not skip the
+flag and the broadcast: `Op.lclose l true`). -/
+theorem lclose_calls_src : lclose_calls = "Lock,Unlock,Close,Broadcast" := by decide
+theorem lclose_ifs_src : lclose_ifs = "l.isClosed" := by decide
+/-- `limitConn.Close`: compare-and-swap, wrapped `Close`, `decrement`, with no other branch in
+between (an error of the wrapped `Close` does not skip the decrement: `Op.close k true`). -/
+theorem conn_close_calls_src : conn_close_calls = "CompareAndSwap,Close,decrement" := by decide
+theorem conn_close_ifs_src : conn_close_ifs = "!c.isClosed.CompareAndSwap(false, true)" := by decide
+/-- `limitListener.increment` waits on the condition variable under the lock. -/
+theorem inc_calls_src : inc_calls = "Lock,Unlock,Wait" := by decide
+/-- `ListenConfig.Listen` hands out the listener wrapped by the shared limiter. -/
+theorem listen_return_src :
+    listen_return = "c.limiter.Limit(l, dnsserver.MustServerInfoFromContext(ctx)), nil" := by decide
+
 end Agd.Tie.C18
